@@ -233,6 +233,41 @@ def run():
                 c.violation('oracle', '%s from JSON: the last string is not reproduced' % kind, [l])
             else:
                 c.nontriv(('fit', kind, need, bl))
+    # ---- integer members through the JSON constructor: either the value the text denotes, or an error - never another value
+    # (kind is a u16 read through a wider accumulator; created_at a u64), for numbers around and far beyond every power-of-two width
+    il, im = [], []
+    EVK = b'{"id":"' + b'11' * 32 + b'","pubkey":"' + b'22' * 32 + b'","sig":"' + b'33' * 64 + b'","tags":[],"content":"c",'
+    wide = [0, 1, 65535, 65536, 65537, 99999, 655350, 2 ** 31, 2 ** 32 - 1, 2 ** 32, 2 ** 32 + 1, 2 ** 32 + 65535, 2 ** 32 + 65536, 3 * 2 ** 32 + 7,
+            10 ** 10, 2 ** 48 + 5, 2 ** 63, 2 ** 64 - 1, 2 ** 64, 2 ** 64 + 1, 2 ** 64 + 65535, 2 ** 65 + 3, 10 ** 20, 10 ** 30 + 1]
+    for kv in wide:
+        il.append('EVJ %s 4096 %d' % (hx(EVK + b'"created_at":5,"kind":' + str(kv).encode() + b'}'), rng.randrange(1, 1 << 40)))
+        im.append(('kind', kv, 65535))
+        il.append('EVJ %s 4096 %d' % (hx(EVK + b'"kind":1,"created_at":' + str(kv).encode() + b'}'), rng.randrange(1, 1 << 40)))
+        im.append(('created_at', kv, 2 ** 64 - 1))
+    wi, mi = c.run_both(il)
+    c.evaluations += len(il)
+    acc_i = []
+    for l, (name, kv, top), a, b in zip(il, im, wi, mi):
+        cls = a.split(' ')[0]
+        c.count('int-%s:%s:%s' % (name, 'fits' if kv <= top else 'wide', cls))
+        if cls in ('panic', 'ABORT', 'HANG', 'GUARD'):
+            c.violation('oracle', 'Event::from_json with %s = %d did not return a value or error: %s' % (name, kv, a[:60]), [l])
+            continue
+        if a.split(' ')[:3] != b.split(' ')[:3]:
+            c.violation('corr', 'Event::from_json with %s = %d: impl %s model %s' % (name, kv, a[:40], b[:40]), [l], found=False)
+        if kv > top and cls == 'ok':
+            c.violation('oracle', 'Event::from_json accepted %s = %d, which does not fit the field' % (name, kv), [l])
+        elif kv <= top and cls != 'ok':
+            c.violation('oracle', 'Event::from_json refused %s = %d' % (name, kv), [l])
+        elif cls == 'ok':
+            acc_i.append(('EVA ' + a.split(' ')[3][:2 * int(a.split(' ')[2])], name, kv, l))
+    for (req, name, kv, l), a in zip(acc_i, c.worker.run([x[0] for x in acc_i])):
+        t = a.split(' ')
+        got = t[4] if name == 'kind' else t[5]
+        if t[0] != 'ok' or got != str(kv):
+            c.violation('oracle', 'Event::from_json read %s = %d as %s' % (name, kv, got), [l])
+        else:
+            c.nontriv(('json-int', name, kv))
     # ---- the JSON path and the from-parts path write the same value: a filter built from parts, and the same parts written as a
     # JSON text and parsed, are byte-for-byte the same (lists with repeated elements - adjacent or apart - included)
     import json as _json
